@@ -52,7 +52,7 @@ func ProfileFor(prop string) Profile {
 		p.Hostile = 0.45
 		return p
 	case "C13":
-		p := tilt("bridge-heavy", map[string]int{"bridge_combo": 6, "bridge": 8, "bridge_receive": 8, "bridge_receive_bound": 4, "mint_replay": 5, "create_batch_replay": 5, "mint": 4, "create_batch": 3, "bridge_chain": 5, "anchor": 0, "attest": 0, "define_resolver": 0, "register_resolver": 0, "resolver_combo": 0})
+		p := tilt("bridge-heavy", map[string]int{"bridge_combo": 3, "bridge": 8, "bridge_receive": 8, "bridge_receive_bound": 4, "mint_replay": 5, "create_batch_replay": 5, "mint": 4, "create_batch": 3, "bridge_chain": 5, "anchor": 0, "attest": 0, "define_resolver": 0, "register_resolver": 0, "resolver_combo": 0})
 		return p
 	case "C14", "C17":
 		p := tilt("creation-heavy", map[string]int{"create_class": 6, "create_project": 8, "create_batch": 5, "bridge_receive": 3, "add_credit_type": 5, "basket_create": 3,
